@@ -42,8 +42,9 @@ def correlation_centroid(im, ref, threshold=0., padding=1):
 
         cx, cy = centre_of_gravity(corr, threshold=threshold)
 
-        cy -= float(ny) / 2. * (float(padding) - 1)
-        cx -= float(nx) / 2. * (float(padding) - 1)
+        # the zero lag sits at index (n * padding) // 2 of the padded correlation, the centre of the frame at n // 2
+        cy -= (ny * int(padding)) // 2 - ny // 2
+        cx -= (nx * int(padding)) // 2 - nx // 2
 
         centroids[:, frame] = cx, cy
 
